@@ -3,6 +3,7 @@ package main
 import (
 	"fmt"
 	"io"
+	"sort"
 	"sync"
 	"time"
 	"unicode/utf8"
@@ -212,6 +213,10 @@ func c06Scope(c *mon.Ctx, r *mon.Rand) {
 	reacquire := r.Bool()
 	desc := map[string]interface{}{"root": rc, "program": prog, "cardinality_tags": cardTags, "reporter": kind, "close_and_derive_again": reacquire}
 	var root tally.Scope
+	// the full names the reference model expects (sanitized piece by piece,
+	// joined with the sanitized separator)
+	wantNames := map[string]bool{}
+	traceIDs, _ := rc.trace(prog)
 	if c.Guard("panic-scope/"+kind, func() interface{} { return desc }, func() {
 		root, _ = vNewRoot(opts, 0, uint(r.Range(0, 4)))
 		recordOn := func(scopes []tally.Scope) {
@@ -220,6 +225,11 @@ func c06Scope(c *mon.Ctx, r *mon.Rand) {
 					continue
 				}
 				m := pool.names[r.Intn(len(pool.names))]
+				if r.Chance(1, 3) {
+					m = rc.Sep + m // a name that begins with the separator is a name like any other
+				}
+				wantNames[rc.metricName(traceIDs[i], m)] = true
+				wantNames[rc.metricName(traceIDs[i], m+"v")] = true
 				s.Counter(m).Inc(1)
 				s.Gauge(m).Update(2)
 				s.Timer(m).Record(time.Millisecond)
@@ -276,6 +286,9 @@ func c06Scope(c *mon.Ctx, r *mon.Rand) {
 			sawCard = true
 		}
 		nstr += 1 + 2*len(ev.Tags)
+		if !isCard && !contains(ev.Name, "tally") && !wantNames[ev.Name] {
+			c.Violation("name-differs-from-model/"+kind, map[string]interface{}{"why": "the delivered metric name is not prefix + separator + name of any metric recorded on (each piece sanitized on its own)", "name": ev.Name, "expected_one_of": keysOf(wantNames), "event": ev.Kind.String(), "case": desc})
+		}
 		if rc.San == nil {
 			continue
 		}
@@ -361,4 +374,13 @@ func firstBadRune(v mon.RefValid, rep rune, s string) string {
 		i += w
 	}
 	return ""
+}
+
+func keysOf(m map[string]bool) []string {
+	out := make([]string, 0, len(m))
+	for k := range m {
+		out = append(out, k)
+	}
+	sort.Strings(out)
+	return out
 }
